@@ -90,7 +90,7 @@ impl<'a> TokenStream<'a> {
 }
 //~assume `changes.into_iter().fold(self, f)` applies the closure to the changes in order (R6)
 //@extract spl_frontend/src/lib.rs :: impl AnalyzedSource :: fn update :: closure |mut acc, change|
-//@ rewrite string_replace_range_acc
+//@ rewrite string_replace_range_acc range_is_empty
 //@ lift pub fn update_step(mut acc: AnalyzedSource, change: TextChange) -> (r: AnalyzedSource)
 //@ sig
     ensures
